@@ -43,7 +43,10 @@ def differential(cx, harness, schemas, lines, kind, nontrivial=None):
             if i[0] != "S":
                 cx.count(" ".join(l.split()[2:]), True if nontrivial is None else nontrivial(l, a), kind(l, a))
         if a != b and a[:2] not in (["err", "Crash"], ["err", "Timeout"]):
-            cx.disagree(COMP, l[:4000], a[:40], b[:40])
+            # keep what differs (replies of histories are long)
+            da = [x for x in a if x not in b][:12] if len(a) > 40 else a
+            db = [x for x in b if x not in a][:12] if len(b) > 40 else b
+            cx.disagree(COMP, l[:6000], da, db)
     cx.sample(lines[cx.rng.randrange(len(lines))][:600])
     return ri, rm
 
